@@ -668,6 +668,16 @@ def pair_texts(rng):
     return out
 
 
+def huge_pair_texts(rng):
+    """explicit pairs with a coordinate beyond CPython's int<->str digit limit (4300): off the curve, must be refused quietly
+    whatever exception formatting the number raises on the way (seed C18-e1).  Direct checks only: the extracted model is
+    needlessly slow on 14000-bit operands."""
+    x, y = rng.randrange(1, N_) * GEN0
+    return ["%s,7" % ("9" * 4301), "5,%s" % ("9" * 4400), "%s/%s" % ("1" + "0" * 4300, "3"), "%d,%s" % (x, "8" * 4302),
+            "%s,%d" % ("f" * 3600, y), "%d/%s" % (x, "e" * 3700), "%s,%s" % ("9" * 4301, "9" * 4301), "%s/even" % ("9" * 4301),
+            "%s/odd" % ("f" * 3600)]
+
+
 def sec_texts(rng, net):
     y8 = GEN0.modular_sqrt(8)
     x, y = rng.randrange(1, N_) * GEN0
@@ -1166,6 +1176,9 @@ def prop_cases(rng, tier):
                 yield from text_checks(nm, e, s)
     for s in electrum_seed_texts(rng, 2 if not thorough else 20):
         for e in ("electrum_seed", "hierarchical_key"):
+            yield from text_checks("btc", e, s)
+    for s in huge_pair_texts(rng):
+        for e in ("public_pair", "public_key", "__call__", "secret"):
             yield from text_checks("btc", e, s)
     # per network hrp: checksummed Bech32/Bech32m strings with 0, 1, 2.. data symbols; also through one shared parseable_str
     for nm, net in NETS:
